@@ -29,6 +29,12 @@ pub struct SinkCfg {
 }
 
 impl SinkCfg {
+    /// A cyclic plan that never accepts anything makes std's `write_all` retry forever (correctly).
+    pub fn live(&self) -> bool {
+        !self.cycle
+            || self.steps.is_empty()
+            || self.steps.iter().any(|s| matches!(s, WStep::Accept | WStep::Short(_)))
+    }
     pub fn accept_all() -> Self {
         SinkCfg {
             steps: vec![],
@@ -61,7 +67,11 @@ pub struct SinkCounters {
     pub empty_calls: u64,
 }
 
+/// Calls after which the sink stops recording.
+pub const CALL_BUDGET: u64 = 20_000_000;
+
 pub struct SinkState {
+    pub budget_exceeded: bool,
     pub cfg: SinkCfg,
     step_idx: usize,
     pub accepted: Vec<u8>,
@@ -83,6 +93,7 @@ pub struct SimSink(pub Rc<RefCell<SinkState>>);
 impl SimSink {
     pub fn new(cfg: SinkCfg) -> Self {
         SimSink(Rc::new(RefCell::new(SinkState {
+            budget_exceeded: false,
             cfg,
             step_idx: 0,
             accepted: vec![],
@@ -103,6 +114,12 @@ impl Write for SimSink {
         let st = &mut *guard;
         st.c.calls += 1;
         let offered = buf.len();
+        if st.c.calls > CALL_BUDGET {
+            // a runaway loop in the code under test: stop recording (bounded memory) and let the
+            // watchdog turn the hang into a report
+            st.budget_exceeded = true;
+            return Ok(offered);
+        }
         if offered == 0 {
             st.c.empty_calls += 1;
         }
